@@ -391,6 +391,22 @@ def fnAgain (n : Node) : Val := runReturn n.outs
 /-- `list_to_outputs`: first run returns the dictionary of the stored items, a cache hit the whole outputs panel (`DotDict`, a dictionary too) -/
 def unpackAgain (n : Node) : Val := Val.dict n.outs
 
+/-- the registry consulted by name and by a test `same` on the defining objects (the repaired
+`inputs_to_dict_factory` compares the specifications: keys, hints, and the defaults with its own notion of
+"the same default") -/
+def classForBy {α : Type} (same : Nat → Nat → Bool) (reg : List (RegEntry α)) (name : String) (ident : Nat)
+    (fresh : α) : α × List (RegEntry α) :=
+  match reg.find? (fun e => e.name == name && same e.ident ident) with
+  | some e => (e.cls, reg)
+  | none => (fresh, ⟨name, ident, fresh⟩ :: reg)
+
+def classesForBy {α : Type} (same : Nat → Nat → Bool) (mk : Nat → α) :
+    List (RegEntry α) → List (String × Nat) → List α
+  | _, [] => []
+  | reg, (name, ident) :: rest =>
+    let r := classForBy same reg name ident (mk ident)
+    r.1 :: classesForBy same mk r.2 rest
+
 /-! ## Dataclass nodes -/
 
 inductive Dflt where
